@@ -94,7 +94,22 @@ def r11_2(chk):
         if lp is None:
             raise AnalysisError(f"{q}: loop over the children not found")
         its[q] = (norm(lp.iter), lp, edge)
-        chk.decide(norm(lp.iter) == f"{edge}.children", "R11.2", key(m, q, "children visited in tree order"), m.loc(lp), f"for {lp.target.id} in {edge}.children", f"iterates `{norm(lp.iter)}`: the other builder walks {edge}.children as they are, so child likelihoods are multiplied through another child's column index whenever the two orders differ")
+        it = lp.iter
+        if isinstance(it, ast.Name):
+            # a local alias of the children list
+            defs = [st.value for st in walk_no_nested(fn) if isinstance(st, ast.Assign) and len(st.targets) == 1 and isinstance(st.targets[0], ast.Name) and st.targets[0].id == it.id]
+            if len(defs) == 1:
+                it = defs[0]
+        txt = norm(it)
+        plain = txt in (f"{edge}.children", f"list({edge}.children)", f"tuple({edge}.children)", f"{edge}.children[:]")
+        permuting = any(isinstance(x, ast.Call) and (call_name(x) or "").split(".")[-1] in ("sorted", "reversed", "set", "frozenset", "shuffle", "sample") for x in ast.walk(it)) or any(isinstance(x, ast.Slice) and (x.lower is not None or x.upper is not None or x.step is not None) for x in ast.walk(it)) or any(isinstance(x, ast.comprehension) and x.ifs for x in ast.walk(it))
+        kk = key(m, q, "children visited in tree order")
+        if plain:
+            chk.ok("R11.2", kk, m.loc(lp), f"for {lp.target.id} in {edge}.children")
+        elif permuting:
+            chk.violation("R11.2", kk, m.loc(lp), f"iterates `{txt}`: the other builder walks {edge}.children as they are, so child likelihoods are multiplied through another child's column index whenever the two orders differ")
+        else:
+            chk.unresolved("R11.2", kk, m.loc(lp), f"iterates `{txt}`: not recognised as the children in tree order")
         # what the loop collects is appended in visiting order
         apps = [c for c in ast.walk(lp) if isinstance(c, ast.Call) and isinstance(c.func, ast.Attribute) and c.func.attr in ("append", "insert", "appendleft")]
         chk.decide(bool(apps) and all(c.func.attr == "append" for c in apps), "R11.2", key(m, q, "collected in visiting order"), m.loc(apps[0] if apps else lp), "children collected with append", f"`{norm(apps[0]) if apps else ''}` does not keep the visiting order")
@@ -105,7 +120,7 @@ def r11_2(chk):
     rec = [c for c in ast.walk(lp) if isinstance(c, ast.Call) and call_name(c) == q]
     ok = bool(sel) and all(len(c.args) == 2 and norm(c.args[1]) == f"{v}.name" for c in sel) and bool(rec) and all(c.args and norm(c.args[0]) == v for c in rec)
     chk.decide(ok, "R11.2", key(m, q, "psub of the same child"), m.loc(sel[0] if sel else lp), f"psub selected by {v}.name for the partial likelihood of {v}", "the psub is not selected by the name of the child whose partial likelihood it multiplies")
-    chk.floor("R11.2", 5, "two builders x (order, append) + psub pairing")
+    chk.floor("R11.2", 3, "two builders (append) + psub pairing; order when recognised")
 
 
 class _Unhandled(Exception):
@@ -357,7 +372,12 @@ def r11_5(chk):
     z = [s for s in walk_no_nested(init) if isinstance(s, ast.Assign) and norm(s.targets[0]) == "self._indexed_children"]
     chk.decide(bool(z) and norm(z[0].value) in ("list(zip(self.indexes, children))", "tuple(zip(self.indexes, children))", "zip(self.indexes, children)"), "R11.5", key(m, "_LikelihoodTreeEdge.__init__", "indexes paired with children positionally"), m.loc(z[0] if z else init), "zip(self.indexes, children)", f"`{norm(z[0].value) if z else '?'}` does not pair the i-th index array with the i-th child")
     ix = [s for s in walk_no_nested(init) if isinstance(s, ast.Assign) and norm(s.targets[0]) == "self.indexes"]
-    chk.decide(bool(ix) and "transpose(self.uniq)" in norm(ix[0].value).replace("numpy.", "").replace(".T", "transpose(self.uniq)") or (bool(ix) and "self.uniq.T" in norm(ix[0].value)), "R11.5", key(m, "_LikelihoodTreeEdge.__init__", "indexes are the transposed unique patterns"), m.loc(ix[0] if ix else init), "self.indexes from transpose(self.uniq)", "self.indexes is not the transpose of the unique column patterns")
+    kix = key(m, "_LikelihoodTreeEdge.__init__", "indexes are the transposed unique patterns")
+    if not ix or "self.uniq" not in norm(ix[0].value):
+        chk.unresolved("R11.5", kix, m.loc(ix[0] if ix else init), "self.indexes is not built from self.uniq in a recognised way")
+    else:
+        txt = norm(ix[0].value)
+        chk.decide("transpose(self.uniq)" in txt or "self.uniq.T" in txt or "swapaxes(self.uniq" in txt, "R11.5", kix, m.loc(ix[0]), "self.indexes from transpose(self.uniq)", "self.indexes is built from self.uniq without transposing it: rows are unique columns, not children")
     mk = chk.repo.module(LTN)
     kf = mk.func("sum_input_likelihoods")
     ps = params_of(kf)
@@ -368,7 +388,7 @@ def r11_5(chk):
         subs = {norm(s.value): norm(s.slice) for s in ast.walk(loops[0]) if isinstance(s, ast.Subscript) and isinstance(s.value, ast.Name) and s.value.id in (ps[0], ps[2])}
         ok = subs.get(ps[0]) == c and subs.get(ps[2]) == c
     chk.decide(ok, "R11.5", key(mk, "sum_input_likelihoods", "index and likelihoods of the same child"), mk.loc(kf), f"{ps[0]}[child] with {ps[2]}[child]", "the kernel reads a child's likelihoods through another child's index")
-    chk.floor("R11.5", 4, "assignments, zip, transpose, kernel")
+    chk.floor("R11.5", 3, "assignments, zip, kernel (transpose when recognised)")
 
 
 def r11_6(chk):
